@@ -108,7 +108,7 @@ pub fn run_cases(args: &Args, rep: &mut Report, cases: Vec<Case>, plan: &Plan) {
     let states: Vec<Mutex<St>> = cases.iter().map(|_| Mutex::new(St { best: None, levels: Vec::new(), last: None, prev: None, done: false, note: None, extra_violations: Vec::new() })).collect();
     for (li, &k) in plan.ks.iter().enumerate() {
         let pending: Vec<usize> = (0..cases.len()).filter(|i| !states[*i].lock().unwrap().done && k <= cases[*i].max_k).collect();
-        if pending.is_empty() || Instant::now() >= deadline {
+        if pending.is_empty() || (li > 0 && Instant::now() >= deadline) {
             break;
         }
         let across = pending.len() >= threads;
@@ -140,7 +140,9 @@ pub fn run_cases(args: &Args, rep: &mut Report, cases: Vec<Case>, plan: &Plan) {
             let t0 = Instant::now();
             let stx = explore::explore(
                 Budget::new(k, plan.env, plan.fault),
-                explore::Limits { max_execs: plan.max_execs_per_case, deadline, threads: inner, stop_after_violation_kinds: 0 },
+                // the first level always runs to completion, whatever the wall cap says: a verdict on the
+                // canonical schedules (and the fault positions along them) must not depend on machine load
+                explore::Limits { max_execs: plan.max_execs_per_case, deadline: if li == 0 { start + Duration::from_secs(3600) } else { deadline }, threads: inner, stop_after_violation_kinds: 0 },
                 &c.label,
                 || (c.exec)(false),
             );
